@@ -30,6 +30,7 @@ type vrtConn struct {
 	readEntries int
 	replied     int // replies queued so far
 	markEntries int // readEntries when the last reply was queued
+	onWrite     func(frame []byte) // ghost hook, runs inside the atomic Write step
 }
 
 var (
@@ -80,6 +81,9 @@ func (c *vrtConn) Write(p []byte) (n int, err error) {
 		}
 		c.frames = append(c.frames, f)
 		n = len(p)
+		if c.onWrite != nil {
+			c.onWrite(f)
+		}
 	})
 	if c.syncWrite && err == nil {
 		k := len(c.frames)
